@@ -52,6 +52,19 @@ int main(int argc, char** argv) {
             if (ok) ++g_accept;
         }
     }
+    {   // the same with typed terms wrapping the two regex terms
+        static const typed_term tdec(dec, [](std::string_view sv) { return int(sv.size()); }); static const typed_term thex(hexn, [](std::string_view sv) { return int(sv.size()) * 100; });
+        static const parser p(lit, terms(tdec, thex, '#'), nterms(lit), rules(lit(tdec) >= [](const auto& t) { return t.get_value(); }, lit('#', thex) >= [](skip, const auto& t) { return t.get_value(); }));
+        for (const std::string& in : all_inputs("7xa#", n)) {
+            ++g_cases; ++g_checks;
+            int want = 0;
+            if (!in.empty() && in.find_first_not_of('7') == std::string::npos) want = int(in.size());
+            else if (in.size() >= 3 && in[0] == '#' && in[1] == 'x' && in.find_first_not_of('a', 2) == std::string::npos) want = int(in.size() - 1) * 100;
+            std::ostringstream es; auto r = p.parse(string_buffer(std::string(in)), es);
+            if ((r ? *r : 0) != want) fail("two typed regex terms with the same display name", in, "parse gives " + (r ? std::to_string(*r) : std::string("<rejected>")) + ", the rules as written give " + (want ? std::to_string(want) : std::string("<rejected>")));
+            if (want) ++g_accept;
+        }
+    }
     std::string esc; for (char c : g_first) { if (c == '"' || c == '\\') esc += '\\'; esc += c; }
     std::printf("{\"cases\": %ld, \"checks\": %ld, \"failures\": %ld, \"accepted\": %ld, \"first_failure\": \"%s\"}\n", g_cases, g_checks, g_fail, g_accept, esc.c_str());
     return g_fail ? 1 : 0;
